@@ -442,7 +442,10 @@ class SamplerCore:
         """Get distribution function (map or pool.map)."""
         if self.config.pool is None:
             return map
-        elif isinstance(self.config.pool, int) and self.config.pool > 1:
+        elif isinstance(self.config.pool, int):
+            if self.config.pool <= 1:
+                # A pool of one (or fewer) processes is serial evaluation
+                return map
             from multiprocess import Pool
 
             pool = Pool(self.config.pool)
